@@ -500,6 +500,45 @@ package hclsyntax
 //@ loopall invariant srcBytes: forall q *byte :: { deref(q) } existed(q) ==> deref(q) == old(deref(q))
 //@ loop 1 invariant decoded: len(diags) > 0 || litDecodes - old(litDecodes) == quotedRead - old(quotedRead)
 
+// ---- no spurious rejection of an argument definition (unit U12c, C02) ----
+// verif:unit U12c props=C02,C15
+// C02: every legal rendering is accepted. The contract-sized part: the functions that parse an
+// argument definition add error diagnostics only where the grammar is violated. lastExprErr records
+// whether the most recent ParseExpression reported an error, lastAttrErr the same for the most recent
+// argument definition. An argument inside a one-line block (singleLine) is in error only if its
+// expression is; and a one-line block body that was recognised (a body is returned) is in error only
+// if its argument is - whatever lines the tokens are on, because the grammar of a one-line block
+// (spec.md, "OneLineBlock") has no line-break rule of its own: newlines inside the brackets of the
+// expression are not tokens of the body.
+// (Each repeats the clauses of the (*parser) template, which a function with its own contract does
+// not inherit.)
+// verif:ghostvar lastExprErr bool
+// verif:ghostvar lastAttrErr bool
+// verif:func (*parser).ParseExpression
+//@ nosafety nil panic assert
+//@ requires p.peeker != nil && len(p.peeker.IncludeNewlinesStack) >= 1
+//@ ensures depth: len(p.peeker.IncludeNewlinesStack) == old(len(p.peeker.IncludeNewlinesStack))
+//@ ensures samePeeker: p.peeker == old(p.peeker)
+//@ ensures srcBytes: forall q *byte :: { deref(q) } existed(q) ==> deref(q) == old(deref(q))
+//@ ghost lastExprErr = hasErr(ret1)
+//@ ensures recorded: lastExprErr == hasErr(ret1)
+// verif:func (*parser).finishParsingBodyAttribute
+//@ nosafety nil panic assert
+//@ requires p.peeker != nil && len(p.peeker.IncludeNewlinesStack) >= 1
+//@ ensures depth: len(p.peeker.IncludeNewlinesStack) == old(len(p.peeker.IncludeNewlinesStack))
+//@ ensures samePeeker: p.peeker == old(p.peeker)
+//@ ensures srcBytes: forall q *byte :: { deref(q) } existed(q) ==> deref(q) == old(deref(q))
+//@ ghost lastAttrErr = hasErr(ret1)
+//@ ensures recorded: lastAttrErr == hasErr(ret1)
+//@ ensures accept: singleLine && !lastExprErr ==> !hasErr(ret1)
+// verif:func (*parser).parseSingleAttrBody
+//@ nosafety nil panic assert
+//@ requires p.peeker != nil && len(p.peeker.IncludeNewlinesStack) >= 1
+//@ ensures depth: len(p.peeker.IncludeNewlinesStack) == old(len(p.peeker.IncludeNewlinesStack))
+//@ ensures samePeeker: p.peeker == old(p.peeker)
+//@ ensures srcBytes: forall q *byte :: { deref(q) } existed(q) ==> deref(q) == old(deref(q))
+//@ ensures accept: ret0 != nil && !lastAttrErr ==> !hasErr(ret1)
+
 // verif:unit U15 props=C06
 // For expressions: the marks of the collection value are on the result on every path; the only
 // exception are returns of cty.DynamicVal accompanied by at least one diagnostic (the error paths).
